@@ -140,8 +140,8 @@ func (e *Engine) enterBlock(st *State) ([]*State, bool) {
 		for h := range coarse.heaps {
 			coarse.whole[h] = true
 		}
+		mark := e.d.nfresh // constants introduced by the havoc below depend on the iteration: a base mentioning one is not loop-invariant
 		e.havocMod(dry2, coarse)
-		mark := e.d.nfresh
 		dry2.dry = &DryInfo{header: fr.blk, frameDepth: depth, mod: newModSet()}
 		e.runDry(dry2)
 		mod2 := dry2.dry.mod
@@ -473,6 +473,30 @@ func (e *Engine) doCall(st *State, call *ssa.CallCommon, fnv Val, args []Val, de
 	}
 	fr := st.top()
 	root := st.frames[0]
+	// verification intrinsics used by the Go-written models of external functions
+	if callee != nil && strings.HasPrefix(callee.Name(), "verif") {
+		switch callee.Name() {
+		case "verifAssume":
+			st.assume(args[0].T)
+			return nil
+		case "verifHavocInt":
+			r := e.freshVal(st, "r_havoc", types.Typ[types.Int])
+			if dest != nil {
+				e.setReg(st, dest, r)
+			}
+			return nil
+		}
+	}
+	isModel := false
+	if mk, ok := e.cs.Models[key]; ok {
+		if mf := e.fnByKey[mk]; mf != nil && mf.Blocks != nil {
+			st.note("external function " + key + " replaced by its Go-written model " + mk + " (trusted)")
+			callee, key, isModel = mf, mk, true
+			fnv = Val{K: KFunc, Fn: mf}
+		} else {
+			panic(contractErr{"model function " + mk + " for " + key + " not found"})
+		}
+	}
 	fc := e.cs.Funcs[key]
 
 	// call-site assertions of the function under verification
@@ -519,7 +543,7 @@ func (e *Engine) doCall(st *State, call *ssa.CallCommon, fnv Val, args []Val, de
 			st.dead = true
 			return nil
 		}
-	case callee != nil && (fnv.K == KClosure || (fc != nil && fc.Inline)) && callee.Blocks != nil && len(st.frames) < 12:
+	case callee != nil && (fnv.K == KClosure || isModel || (fc != nil && fc.Inline)) && callee.Blocks != nil && len(st.frames) < 12:
 		// inline
 		nf := &Frame{fn: callee, regs: map[ssa.Value]Val{}, blk: callee.Blocks[0], retDest: dest, isDefer: isDefer,
 			inLoop: map[*ssa.BasicBlock]bool{}, free: map[*ssa.FreeVar]Val{}, params: map[string]Val{}, cellByName: map[string]int{}}
@@ -676,7 +700,7 @@ func (e *Engine) applyContract(st *State, fc *FuncContract, callee *ssa.Function
 			alts = append(alts, e.evalBool(env, c))
 		}
 		cond := or(alts...)
-		if st.dry == nil {
+		if st.dry == nil && !(st.top().fc != nil && st.top().fc.NoSafety) {
 			root := st.frames[0]
 			allowed := "false"
 			if root.fc != nil && len(root.fc.Aborts) > 0 {
@@ -945,6 +969,25 @@ func (e *Engine) evalLoc(env *Env, x ast.Expr) []Loc {
 				locs = append(locs, Loc{Heap: l.Heap, BaseFn: func(r string) string { return "true" }})
 			}
 			return locs
+		}
+		if id, ok := x.Fun.(*ast.Ident); ok && id.Name == "heap" && len(x.Args) == 1 {
+			// heap(Type.field): that field of every object of the type
+			se, ok := x.Args[0].(*ast.SelectorExpr)
+			if !ok {
+				env.fail("assigns heap(Type.field)")
+			}
+			t := e.resolveType(exprString(se.X), env.pkg)
+			if t == nil || !isStruct(t) {
+				env.fail("assigns heap: cannot resolve struct type %s", exprString(se.X))
+			}
+			stt := t.Underlying().(*types.Struct)
+			for i := 0; i < stt.NumFields(); i++ {
+				if stt.Field(i).Name() == se.Sel.Name && !isStruct(stt.Field(i).Type()) {
+					h, _ := e.d.FieldHeap(t, i)
+					return []Loc{{Heap: h, BaseFn: func(r string) string { return "true" }}}
+				}
+			}
+			env.fail("assigns heap: no leaf field %s", se.Sel.Name)
 		}
 		if id, ok := x.Fun.(*ast.Ident); ok && id.Name == "reachable" && len(x.Args) == 1 {
 			v := env.eval(x.Args[0])
